@@ -41,6 +41,9 @@ def units(tier):
         U.append((uid, lambda fn=fn, invs=invs, uid=uid: cbmc.extracted_unit(uid, [(INV, "Phreeqc::" + fn, None)], open(H).read(), "h_" + fn, prelude=pre, rules=RULES,
                  loop_contracts={"Phreeqc::" + fn: {0: invs}}, loop_count={"Phreeqc::" + fn: 1}, defines=["VERIF_MAXPOS=31"], function="Phreeqc::" + fn,
                  expect=("loop_invariant_base", "loop_invariant_step", "assertion"), loop_contracts_flag=True, timeout=600)))
+    from props import c18_more as MM
+    from props.common import wrap as _wrap
+    _wrap(U, "C18.inverse.report_clamps_and_minimal_search_cover_every_item", MM.unit_inverse_reporting)
     return U
 
 
